@@ -20,6 +20,7 @@ MODULE_DEPS = {
     "dedupe__c08": ["path", "file"],
     "lock": ["path"],
     "dedupe__c20": ["path"],
+    "dedupe__c07": ["dedupe", "path", "file"],
 }
 
 
@@ -85,6 +86,7 @@ k("c19_acquire_after_wakeups_bounded", "semaphore::Semaphore::acquire (stubbed C
   cls="bounded", bound="at most 2 wake-ups of Condvar::wait (the unbounded loop is the Verus unit `semaphore`)")
 # ---- transform.rs
 k("c07_transform_frame", "transform::Transform::make_args + Input::prepare_input_file + Drop for Input/Output/Transform", module="transform", t=1500)
+k("c07_are_on_same_mount_is_pure", "dedupe::PartitionedFileGroup::are_on_same_mount", module="dedupe__c07", t=600)
 # ---- hasher.rs
 for _o in ("ok", "notfound", "denied", "other"):
     k("c15_hash_file_" + _o, "hasher::FileHasher::hash_file_or_log_err", module="hasher", t=300)
@@ -174,7 +176,7 @@ PROPS = {
         design_ref="DESIGN.md §5 C08",
     ),
     "C07": dict(
-        kani=["c07_transform_frame"],
+        kani=["c07_transform_frame", "c07_are_on_same_mount_is_pure"],
         verus=[],
         prefixes=["C07."],
         category="proof",
